@@ -39,6 +39,15 @@ Further families (added after seeded changes the families above did not notice):
     evaluation.  The history is read statically as a sequence of dataset tables (static_envs: what each
     mutator does to the description, mirroring dataset.py), which gives the model term (the same cache
     ids shared along the phases) and the per-operation table the oracle O1-O5 is evaluated against.
+  * CACHE ENTRY POINTS x SPELLINGS OF A CACHE FACTORY: (a) entry_scenarios, in the correspondence too: the DAG profile
+    above with every dataset created through one of labrea's other public ways of saying "this dataset is cached"
+    (cache=<callable>, a kept and reused dataset(cache=<callable>) factory - plain, with further configuration, .where -,
+    set_cache(<instance> | <callable>), dataset.nocache then set_cache), the callable being a function, a lambda, a
+    functools.partial, a class, a bound method, a callable instance, a genuine Cache subclass given as the class, a
+    partial of it, a function with defaulted keyword-only parameters (props/c01.py entry_builder_class: recording caches,
+    one per dataset, so the model - one cache per dataset - applies unchanged); (b) oracle only, api_sweeps: every entry
+    point (SPELLED_ENTRIES) x every spelling (SPELLINGS: the class MemoryCache, a user Cache class, a user MemoryCache
+    subclass, partials, lambdas, functions, bound / static / class methods, callable objects), counters in the bodies.
 """
 import contextlib
 
@@ -1137,6 +1146,68 @@ def sweep_scenarios(ctx):
 
 
 API_ENTRIES = ("bare", "class", "instance", "set_cache", "factory")
+# every PUBLIC place a cache can be handed to a dataset x every legitimate spelling of "a callable returning a Cache"
+# (dataset.py: cache: Union[Cache, Callable[..., Cache], None]; set_cache likewise)
+SPELLED_ENTRIES = ("cache_arg", "decorator_kw", "factory_reused", "factory_derived", "set_cache_arg", "nocache_set_cache_arg")
+SPELLINGS = ("MemoryCache", "user_cache_class", "memory_subclass", "partial", "partial_of_user_class", "lambda", "lambda_default", "function",
+             "bound_method", "callable_object", "staticmethod", "classmethod", "kwonly_default")
+
+
+def cache_spelling(name):
+    """a callable returning a fresh Cache, in one of its legitimate kinds"""
+    import functools
+    from labrea.cache import Cache, CacheGetFailure, MemoryCache
+
+    class DictCache(Cache):
+        """a user cache implementing exactly the two abstract methods"""
+
+        def __init__(self):
+            self.store = {}
+
+        def get(self, evaluatable, options):
+            try:
+                return self.store[evaluatable.fingerprint(options)]
+            except KeyError as e:
+                raise CacheGetFailure(evaluatable, options, self) from e
+
+        def set(self, evaluatable, options, value):
+            self.store[evaluatable.fingerprint(options)] = value
+
+    class Audited(MemoryCache):
+        """a user subclass of the library's cache overriding one method"""
+
+        def set(self, evaluatable, options, value):
+            self.writes = getattr(self, "writes", 0) + 1
+            super().set(evaluatable, options, value)
+
+    class Provider:
+        def __init__(self):
+            self.made = 0
+
+        def new_cache(self):
+            self.made += 1
+            return MemoryCache()
+
+        def __call__(self):
+            return DictCache()
+
+        @staticmethod
+        def static():
+            return MemoryCache()
+
+        @classmethod
+        def klass(cls):
+            return Audited()
+
+    def new_cache():
+        return MemoryCache()
+
+    def kwonly(*, kind=DictCache):
+        return kind()
+    return {"MemoryCache": MemoryCache, "user_cache_class": DictCache, "memory_subclass": Audited, "partial": functools.partial(MemoryCache),
+            "partial_of_user_class": functools.partial(DictCache), "lambda": (lambda: MemoryCache()), "lambda_default": (lambda kind=Audited: kind()),
+            "function": new_cache, "bound_method": Provider().new_cache, "callable_object": Provider(), "staticmethod": Provider.static,
+            "classmethod": Provider.klass, "kwonly_default": kwonly}[name]
 
 
 def api_sweep(params):
@@ -1152,6 +1223,8 @@ def api_sweep(params):
     n, shape, entry, order = params["n"], params["shape"], params["entry"], params["order"]
     runs, effs = Counter(), Counter()
     memo = dataset(cache=MemoryCache)        # one configured factory, reused for every dataset of the graph
+    spelled = cache_spelling(params["spelling"]) if params.get("spelling") else None     # ONE object, handed to every dataset of the graph
+    kept = {}
 
     def make(f, **kw):
         if entry == "bare":
@@ -1162,9 +1235,33 @@ def api_sweep(params):
             return dataset(f, cache=MemoryCache(), **kw)
         if entry == "factory":
             return memo(f, **kw)
-        d = dataset.nocache(f, **kw)
-        d.set_cache(MemoryCache)
-        return d
+        if entry == "set_cache":
+            d = dataset.nocache(f, **kw)
+            d.set_cache(MemoryCache)
+            return d
+        # the cache is given as `spelled` (a callable returning a Cache, in one of its legitimate spellings) ...
+        if entry == "cache_arg":                # ... to the decorator itself
+            return dataset(f, cache=spelled, **kw)
+        if entry == "decorator_kw":             # ... @dataset(cache=..., <everything else>) applied to the function
+            return dataset(cache=spelled, **kw)(f)
+        if entry == "factory_reused":           # ... to a configured factory that is kept and used for every dataset
+            if "memo" not in kept:
+                kept["memo"] = dataset(cache=spelled)
+            return kept["memo"](f, **kw)
+        if entry == "factory_derived":          # ... to a factory from which further factories are derived (where / nested configuration)
+            if "memo" not in kept:
+                kept["memo"] = dataset(cache=spelled)
+            defaults = kw.pop("defaults", {})
+            return kept["memo"].where(**defaults)(**kw)(f)
+        if entry == "set_cache_arg":            # ... to set_cache of an existing (cached) dataset
+            d = dataset(f, **kw)
+            d.set_cache(spelled)
+            return d
+        if entry == "nocache_set_cache_arg":    # ... to set_cache of a dataset created without a cache
+            d = dataset.nocache(f, **kw)
+            d.set_cache(spelled)
+            return d
+        raise TypeError(entry)
 
     def effect(name):
         return lambda value: effs.update([(name, value)])
@@ -1254,6 +1351,14 @@ def api_sweeps(ctx):
     if not ctx.quick:
         plan += [dict(n=rng.randint(500, 2500), shape=sh, entry=en, order=rng.choice(["forward", "reverse", "shuffle"]), seed=rng.randrange(1000))
                  for sh in ("single", "chain", "diamond") for en in API_ENTRIES]
+    # every entry point x every spelling of a cache factory, short histories (shape and order rotate; one graph per combination)
+    shapes, orders = ("single", "chain", "diamond"), ("forward", "reverse", "shuffle")
+    for a, entry in enumerate(SPELLED_ENTRIES):
+        for b, spelling in enumerate(SPELLINGS):
+            if ctx.quick and (a + b) % 2 and spelling not in ("MemoryCache", "partial", "lambda", "user_cache_class"):
+                continue
+            plan.append(dict(n=rng.randint(6, 14) if ctx.quick else rng.randint(20, 60), shape=shapes[(a + b) % 3], entry=entry, spelling=spelling,
+                             order=orders[(a + 2 * b) % 3], seed=rng.randrange(1000)))
     out, evaluations = [], 0
     for params in plan:
         evaluations += 3 * params["n"]
@@ -1713,7 +1818,30 @@ def check_scenarios(ctx, scns, name, shard=None):
     return impls, mism, stats, violations, tagged, totals, distinct
 
 
+CALLABLE_ENTRIES = ("callable", "factory", "factory_kw", "factory_where", "factory_derived", "set_cache_callable", "nocache_then_set")
+
+
+def entry_scenarios(ctx):
+    """the DAG profile of `generate`, every dataset created through a public cache entry point that takes a CALLABLE (one entry
+    point and one spelling of the callable per scenario, mostly; see props/c01.py assign_entries)"""
+    import random
+    import props.c01 as c01
+    rng = random.Random(f"{ctx.seed}-C02-entry-points")        # its own stream (VERIF_SEED decides it): the older streams stay what they were
+    out = []
+    for i in range(len(CALLABLE_ENTRIES) * (9 if ctx.quick else 90)):
+        g = Gen02(rng, with_alloptions=False, with_map=False, preset_on_ds=0.2 if i % 2 else 0.0, with_templates=(i % 3 == 0))
+        s = g.scenario02(n_ops=14)
+        out.append(c01.assign_entries(rng, s, recorded=True, uniform=CALLABLE_ENTRIES[i % len(CALLABLE_ENTRIES)]))
+    return out
+
+
 def run(ctx):
+    import props.c01 as c01
+    with c01.entry_points():        # (descriptions that name no entry point are built exactly as before)
+        return run_(ctx)
+
+
+def run_(ctx):
     n = 400 if ctx.quick else 4000
     fixed = fixed_scenarios()
     # scenarios of the repaired defects that touch the anchored mechanisms (WithOptions.keys, with_options
@@ -1729,10 +1857,14 @@ def run(ctx):
     m_impls, m_mism, m_viol, m_totals, m_ops, m_kinds = check_phased(ctx, muts, "Muts_C02")
     # oracle only: thousands of distinct assignments on graphs built through the public entry points
     a_viol, a_evals, a_plan = api_sweeps(ctx)
-    mism = mism + s_mism + m_mism
-    violations = violations + s_viol + m_viol + a_viol
-    distinct |= s_distinct
-    for extra in (s_totals, m_totals):
+    # datasets created through the public cache entry points that take a callable, in every spelling of the callable
+    entries = entry_scenarios(ctx)
+    e_impls, e_mism, e_stats, e_viol, _, e_totals, e_distinct = check_scenarios(ctx, entries, "Entries_C02")
+    mism = mism + s_mism + m_mism + e_mism
+    violations = violations + s_viol + m_viol + a_viol + e_viol
+    distinct |= s_distinct | e_distinct
+    stats["ops"] += e_stats["ops"]
+    for extra in (s_totals, m_totals, e_totals):
         for k, v in extra.items():
             totals[k] = totals.get(k, 0) + v
     stats["ops"] += s_stats["ops"] + m_ops
@@ -1758,7 +1890,9 @@ def run(ctx):
                 "then repeats of early / middle / late ones; oracle only: up to 1100 distinct assignments on graphs built with @dataset / "
                 "dataset(cache=MemoryCache) / cache=<instance> / set_cache / a reused configured factory / cached(...)) and mutator histories "
                 "(add_effects / add_effect / disable_effects / enable_effects / set_cache / set_dispatch / register / overload / with_options / "
-                "with_default_options called between the evaluations of one long-lived graph); non-trivial = the history "
+"with_default_options called between the evaluations of one long-lived graph); datasets created through every public cache entry point "
+                "that takes a callable, in every spelling of the callable (recording caches: correspondence + oracle; labrea's own caches: counters, "
+                "oracle only); non-trivial = the history "
                 "contains at least one storing miss and at least one cache hit; distinct by hash of the scenario",
         "samples": [dict(env=repr(s["env"])[:400], first_ops=[repr(o)[:140] for o in s["ops"][:3]], observed=il[:3]) for s, il in list(zip(scns, impls))[:3]],
         "traces_validated_against_impl": stats["ops"],
@@ -1773,7 +1907,8 @@ def run(ctx):
                              scenarios_with_forced_section_presets=sum(1 for s in scns if forced_section_presets(s)),
                              oracle_failures_tagged=tagged, oracle_failures_on_other_properties_witnesses=wit,
                              long_histories=[len(x["ops"]) for x in sweeps], api_sweeps_oracle_only=a_plan,
-                             mutator_histories=len(muts), mutators=m_kinds, mutator_history_ops=m_ops),
+                             mutator_histories=len(muts), mutators=m_kinds, mutator_history_ops=m_ops,
+                             entry_point_scenarios=len(entries), entry_points=c01_histogram(entries)),
         "exhaustive": False,
         "assumptions": ["user code is deterministic and total on the values it is given; bodies/effects are the harness's counting functions",
                         "'the options a dataset depends on' is measured per evaluation as the top-level option names a cache-free evaluation of a fresh "
@@ -1786,6 +1921,16 @@ def run(ctx):
         "trusted_base": ["confectioner (mix / get_dotted_key / resolve) and CPython json/dict are modelled (Model/Base.v, Model/Template.v), validated by this correspondence run",
                          "the counting oracle reads the call log of harness/core.py's World (bodies, effects, recording MemoryCache subclasses)"],
     }
+
+
+def c01_histogram(scns):
+    h = {}
+    for s in scns:
+        for k, d in s["env"].items():
+            if isinstance(k, int) and d.get("entry"):
+                key = d["entry"] + "/" + d.get("flavour", "function")
+                h[key] = h.get(key, 0) + 1
+    return h
 
 
 def forced_section_presets(scn):
@@ -1801,6 +1946,12 @@ def forced_section_presets(scn):
 
 
 def replay(ctx, payload):
+    import props.c01 as c01
+    with c01.entry_points():
+        return replay_(ctx, payload)
+
+
+def replay_(ctx, payload):
     if payload.get("family") == "api_sweep":        # oracle only: the graph is built directly with labrea's public API
         fails = api_sweep(payload["params"])
         return bool(fails), dict(oracle_failures=fails, params=payload["params"])
